@@ -52,6 +52,14 @@ class State:
         return t
 
 
+def _resolve_test(test, fn):
+    from .shape import resolve
+    try:
+        return resolve(test, fn)
+    except Exception:
+        return test
+
+
 class Tagger:
     def __init__(self, ck, fi, prop_rule="G-TAG", inplace=False, other_name="other"):
         self.ck = ck
@@ -404,7 +412,8 @@ class Tagger:
                     if (nid, v) in seen:
                         continue
                     s2 = st.copy()
-                    self.apply_test(s2, n.ast, lab == "t")
+                    # conditions hoisted into boolean temporaries (`both = a and b; if both and ...`) are looked through
+                    self.apply_test(s2, _resolve_test(n.ast, self.fi.node), lab == "t")
                     stack.append((v, s2, seen | {(nid, v)}))
                 continue
             for (v, lab) in succ:
